@@ -749,7 +749,7 @@ theorem translate_step (v : String) (e : Dom ℝ) (t : PFun ℝ) (ρ : Env ℝ) 
       · simp at h1
     · rintro ⟨q, hq, rfl⟩
       right; left
-      exact ⟨q 0, q 1, _, _, tx, ty, rfl, rfl, by simp, by simp, hq⟩
+      exact ⟨q 0, q 1, _, _, tx, ty, rfl, rfl, by simp, by simp, by simpa using hq⟩
   rw [this, translation_invariant]
 
 
